@@ -48,6 +48,10 @@ def _run_one(args) -> Tuple[str, str, str]:
             mod.run(repo, rep, "quick")
         except AnalysisError as exc:
             got, detail = "error", str(exc)
+        except Exception as exc:  # a crash of the checker on a mutant is a checker defect
+            import traceback
+
+            got, detail = "crash", traceback.format_exc(limit=3)
         else:
             known = {f["key"] for f in load_known_findings().get("findings", []) if f.get("property") == prop}
             viol = [o for o in rep.obligations if o.status == VIOLATION and o.key() not in known]
@@ -64,6 +68,8 @@ def _run_one(args) -> Tuple[str, str, str]:
                 got, detail = "silent", ""
     finally:
         shutil.rmtree(tmp, ignore_errors=True)
+    if got == "crash":
+        return name, "broken", f"checker crashed: {detail}"
     if expect == "violation":
         return name, ("pass" if got == "violation" else "missed"), f"{got}: {detail}"
     if expect == "silent":
